@@ -271,7 +271,8 @@ func (s *Shard) setEpochEventHandler(e Event) {
 			continue
 		}
 
-		if unpaidSince < 0 {
+		if unpaidSince < 0 || uint64(unpaidSince) > ne.epoch {
+			// paid, or marked unpaid after the epoch being processed (delayed event)
 			continue
 		}
 
